@@ -133,8 +133,6 @@ def _classify(run, summary, details, what):
             vlib.log("DRIFT (%s): %d cases where implementation and model differ: %s %s" %
                      (what, p["count"], p["sig"], d.get("desc", "")[:300]))
             continue
-        if p["sig"].get("what") == "harness-watchdog":
-            raise vlib.ToolError("%s: the harness watchdog fired: %s" % (what, d.get("desc")))
         for _ in range(p["count"]):
             if run.report(p["sig"], "%s: %s" % (what, d.get("desc", "")), d.get("case")) == "violation":
                 break
@@ -233,9 +231,11 @@ def run(run, tier, replay):
             if name in died:
                 continue
             summ, det = results[name]
-            if summ.get("aborted"):
-                raise vlib.ToolError("%s aborted" % name)
             drift += _classify(run, summ, det, name)
+            if summ.get("aborted"):
+                # a blocking call of the code under test never returned (60-90 s without progress): reported above
+                died.append(name)
+                continue
             total += summ.get("program_runs", summ["cases"]) + summ.get("stress_iterations", 0)
             run.note("leg_" + name.replace(" ", "_"), {k: v for k, v in summ.items() if k not in ("type", "problems")})
         if died:
